@@ -244,7 +244,7 @@ const agg2CmpBodyRaw = `// check to see if anything needs to be created
 			storage.CopyIter(typ,dataReuse,dataB, iit, bit)
 			bit.Reset()
 			iit.Reset()
-			err = e.E.{{.Name}}SameIter(typ, dataA, dataReuse, ait, bit)
+			err = e.E.{{.Name}}SameIter(typ, dataA, dataReuse, ait, iit)
 			retVal = reuse
 		case same && safe && reuse != nil && leftTensor:
 			storage.CopyIter(typ,dataReuse,dataA, iit, ait)
@@ -358,7 +358,7 @@ const agg2MinMaxBodyRaw = `// check to see if anything needs to be created
 			storage.CopyIter(typ,dataReuse,dataB, iit, bit)
 			bit.Reset()
 			iit.Reset()
-			err = e.E.{{.Name}}Iter(typ, dataA, dataReuse, ait, bit)
+			err = e.E.{{.Name}}Iter(typ, dataA, dataReuse, ait, iit)
 			retVal = reuse
 		case safe && reuse != nil && leftTensor:
 			storage.CopyIter(typ,dataReuse,dataA, iit, ait)
